@@ -51,13 +51,21 @@ type caseSpec struct {
 	SleepMaxUS int    `json:"sleep_max_us"`
 	StallPct   int    `json:"stall_pct"`
 	StallMaxUS int    `json:"stall_max_us"`
+	// Layout: where the slices handed to Write live. 0: every write is a freshly
+	// allocated slice (len == cap). 1: every writer builds its whole payload once
+	// and writes consecutive sub-slices of it in ascending address order (len < cap,
+	// the spare capacity of a write is the writer's own not-yet-written data).
+	// 2: odd writers as 1, even writers as 0. 3: as 1 but in descending address
+	// order (the spare capacity is data that was written earlier and may still be
+	// queued, merged or in the consumer's hands).
+	Layout int `json:"layout"`
 }
 
 // caseLog is what the worker recorded for one case. Stamps are values of one
 // atomic logical clock (unique, totally ordered).
 type caseLog struct {
 	No int `json:"no"`
-	// Writes: [gid, nElems, seq, pre, post, hasFC, fcStamp, errFlag]
+	// Writes: [gid, nElems, seq, pre, post, hasFC, fcStamp, flags] flags: bit0 = Write returned an error, bit1 = the slice passed had len < cap
 	Writes [][8]int64 `json:"writes"`
 	// Batches: [seq, recv, preClose, postClose, mutated, fcClosedBeforeClose, fcOpenAfterClose, closePanicked]
 	Batches     [][8]int64 `json:"batches"`
@@ -70,6 +78,11 @@ type caseLog struct {
 	Stalls      int        `json:"stalls"`
 	Flushes     int        `json:"flushes"`
 	WallUS      int64      `json:"wall_us"`
+	// Clobbered: words of the writers' pre-built payloads (Layout != 0) that no
+	// longer hold what the writer put there (compared after the case has
+	// drained; -1 = not compared). Diagnostic only, the verdict is taken from
+	// the emitted stream.
+	Clobbered int `json:"clobbered"`
 }
 
 type workerSummary struct {
@@ -161,6 +174,8 @@ func runCase(s caseSpec) (lg caseLog) {
 	total := s.Writers * s.WritesPer
 	fcs := make([]queue.FlushChannel, total+1) // index gid; last = sentinel
 	perWriter := make([][][8]int64, s.Writers)
+	payloads := make([][]int64, s.Writers) // Layout != 0: the writer's pre-built payload
+	payWant := make([][]int64, s.Writers)  // and a private copy of what it must still hold at the end
 	fcStamps := make([]atomic.Int64, total+1)
 
 	var wWG, fcWG, flWG sync.WaitGroup
@@ -277,13 +292,46 @@ func runCase(s caseSpec) (lg caseLog) {
 			r := rand.New(rand.NewPCG(s.Seed, uint64(w)+1))
 			recs := make([][8]int64, 0, s.WritesPer)
 			defer func() { perWriter[w] = recs }()
+			// Pre-built payload: the writes of this writer are consecutive
+			// sub-slices of one array (a producer chunking a larger buffer).
+			var chunkOff, chunkLen []int
+			var payload []int64
+			if s.Layout == 1 || s.Layout == 3 || (s.Layout == 2 && w%2 == 1) {
+				rs := rand.New(rand.NewPCG(s.Seed, uint64(w)+5000))
+				chunkOff, chunkLen = make([]int, s.WritesPer), make([]int, s.WritesPer)
+				tot := 0
+				for i := range chunkLen {
+					chunkLen[i] = 1 + rs.IntN(s.MaxElems)
+					tot += chunkLen[i]
+				}
+				payload = make([]int64, tot)
+				off := 0
+				for j := 0; j < s.WritesPer; j++ {
+					i := j // address order = write order
+					if s.Layout == 3 {
+						i = s.WritesPer - 1 - j // address order = reverse write order
+					}
+					chunkOff[i] = off
+					for k := 0; k < chunkLen[i]; k++ {
+						payload[off+k] = int64(w*s.WritesPer+i)*8 + int64(k)
+					}
+					off += chunkLen[i]
+				}
+				payloads[w], payWant[w] = payload, append([]int64(nil), payload...)
+			}
 			for i := 0; i < s.WritesPer; i++ {
 				yield(r, s.YieldPct, s.SleepMaxUS)
 				gid := int64(w*s.WritesPer + i)
 				n := 1 + r.IntN(s.MaxElems)
-				objs := make([]int64, n)
-				for k := range objs {
-					objs[k] = gid*8 + int64(k)
+				var objs []int64
+				if payload != nil {
+					n = chunkLen[i]
+					objs = payload[chunkOff[i] : chunkOff[i]+n] // plain two-index slice: capacity runs to the end of the payload
+				} else {
+					objs = make([]int64, n)
+					for k := range objs {
+						objs[k] = gid*8 + int64(k)
+					}
 				}
 				var fc queue.FlushChannel
 				inline := false
@@ -298,6 +346,9 @@ func runCase(s caseSpec) (lg caseLog) {
 				rec := [8]int64{gid, int64(n), seq, pre, post, 0, 0, 0}
 				if err != nil {
 					rec[7] = 1
+				}
+				if cap(objs) > len(objs) {
+					rec[7] |= 2
 				}
 				if fc != nil {
 					rec[5] = 1
@@ -412,6 +463,19 @@ func runCase(s caseSpec) (lg caseLog) {
 		}
 	}
 	lg.Depth = q.Depth()
+	lg.Clobbered = -1
+	if ok {
+		// Every writer has returned and the consumer has received the sentinel:
+		// nobody uses the payloads any more.
+		lg.Clobbered = 0
+		for w := range payloads {
+			for i := range payloads[w] {
+				if payloads[w][i] != payWant[w][i] {
+					lg.Clobbered++
+				}
+			}
+		}
+	}
 	if ok {
 		// Nothing is in flight any more (Close would block for ever if the run
 		// loop were still trying to hand a batch to a consumer that has left).
@@ -444,6 +508,7 @@ type verdict struct {
 type caseStats struct {
 	writes, batches, fullBatches, partialBatches, multiWriterBatches int64
 	fcChecked, overlaps, elems                                       int64
+	subsliceWrites, batchesLedBySubslice                             int64
 	overlapSeen                                                      bool
 }
 
@@ -462,16 +527,20 @@ func judge(s caseSpec, lg caseLog) (vs []verdict, st caseStats) {
 		n                          int
 		seq, pre, post, fc, fcStmp int64
 		seen                       bool
+		spare                      bool // the slice passed to Write had len < cap
 		batch                      int
 	}
 	ws := make(map[int64]*wr, len(lg.Writes))
 	for _, w := range lg.Writes {
-		if w[7] != 0 {
+		if w[7]&1 != 0 {
 			add("write:error", "Write returned an error on an open queue (write %d)", w[0])
 			continue
 		}
-		ws[w[0]] = &wr{n: int(w[1]), seq: w[2], pre: w[3], post: w[4], fc: w[5], fcStmp: w[6], batch: -1}
+		ws[w[0]] = &wr{n: int(w[1]), seq: w[2], pre: w[3], post: w[4], fc: w[5], fcStmp: w[6], batch: -1, spare: w[7]&2 != 0}
 		st.elems += w[1]
+		if w[7]&2 != 0 {
+			st.subsliceWrites++
+		}
 	}
 	st.writes = int64(len(ws))
 	// --- sequence numbers as returned to the writers
@@ -556,6 +625,7 @@ func judge(s caseSpec, lg caseLog) (vs []verdict, st caseStats) {
 		}
 		lastBatchSeq = b[0]
 		nWrites := 0
+		ledBySpare := false
 		var maxSeq int64 = -1 << 62
 		writers := map[int64]bool{}
 		for i := 0; i < len(objs); {
@@ -591,6 +661,9 @@ func judge(s caseSpec, lg caseLog) (vs []verdict, st caseStats) {
 				add("elem:duplicate", "write %d emitted twice (batches %d and %d)", g, w.batch, bi)
 			}
 			w.seen, w.batch = true, bi
+			if nWrites == 0 && w.spare {
+				ledBySpare = true
+			}
 			nWrites++
 			if g < int64(total) {
 				writers[g/int64(s.WritesPer)] = true
@@ -620,6 +693,9 @@ func judge(s caseSpec, lg caseLog) (vs []verdict, st caseStats) {
 		}
 		if len(writers) > 1 {
 			st.multiWriterBatches++
+		}
+		if ledBySpare && nWrites > 1 {
+			st.batchesLedBySubslice++
 		}
 		if nWrites > 0 && b[0] != maxSeq {
 			add("batch:seq-not-max", "batch %d carries sequence number %d, largest contained is %d", bi, b[0], maxSeq)
@@ -672,11 +748,12 @@ func genCase(no int, r *rand.Rand, quick bool) caseSpec {
 	s.SleepMaxUS = []int{0, 20, 200}[r.IntN(3)]
 	s.StallPct = []int{0, 5, 30}[r.IntN(3)]
 	s.StallMaxUS = []int{0, 100, 2000}[r.IntN(3)]
+	s.Layout = []int{0, 1, 1, 2, 2, 3}[r.IntN(6)] // drawn last: the other parameters of case i are what they were before this was added
 	return s
 }
 
 func run(c *vf.Ctx) {
-	c.Rule("case = seeded parameters (2-8 writers x ~500 Writes of 1-4 unique elements, 0-100% with a flush channel, 0-2 flushers, batch size 1-8, channel capacity 1-1024, timeout 0/200us/5ms/50ms, seeded Gosched/sleeps, stalling consumer) run on the real queue.Queue[int64] in a child process, once in the normal and once in the -race build; every Write (call/return stamp, returned sequence number), every received Request (objects, stamps around Request.Close) and every flush-channel close is logged with one logical clock and judged offline. non-trivial = Write calls of different writers overlapped (by stamps) and >=2 batches were emitted; distinct by (parameters, build)")
+	c.Rule("case = seeded parameters (2-8 writers x ~500 Writes of 1-4 unique elements, handed over either as freshly allocated slices or - all writers, or only the odd ones - as consecutive sub-slices (len < cap) of one payload array the writer built beforehand, chunked in ascending or descending address order so that the spare capacity of a write is the writer's own not-yet-written resp. already-written data; 0-100% with a flush channel, 0-2 flushers, batch size 1-8, channel capacity 1-1024, timeout 0/200us/5ms/50ms, seeded Gosched/sleeps, stalling consumer) run on the real queue.Queue[int64] in a child process, once in the normal and once in the -race build; every Write (call/return stamp, returned sequence number), every received Request (objects, stamps around Request.Close) and every flush-channel close is logged with one logical clock and judged offline. non-trivial = Write calls of different writers overlapped (by stamps) and >=2 batches were emitted; distinct by (parameters, build)")
 	c.Assume("write order = order of the sequence numbers returned by Write (cross-checked against real-time order of non-overlapping calls and per-writer program order)")
 	c.Assume("a batch is 'released' when the single consumer calls Request.Close on it; a write counts as lost only if a later write (a sentinel written after all writers finished, followed by Flush) has already been delivered")
 	c.Assume("the logical clock is an atomic counter, so it adds happens-before edges between stamped operations; data races are only reported for accesses that truly overlap between two stamps")
@@ -837,6 +914,8 @@ func run(c *vf.Ctx) {
 	c.Count("batches_mixing_writers", tot.multiWriterBatches)
 	c.Count("flush_channels_checked", tot.fcChecked)
 	c.Count("overlapping_write_calls", tot.overlaps)
+	c.Count("writes_of_subslices_len_lt_cap", tot.subsliceWrites)
+	c.Count("multi_write_batches_led_by_subslice_write", tot.batchesLedBySubslice)
 	c.Count("queue_expvar_num_timeout", sumTimeout)
 	c.Count("queue_expvar_num_flush", sumFlush)
 	c.Count("worker_jobs", int64(len(jobs)))
@@ -855,14 +934,20 @@ func handleCase(c *vf.Ctx, s caseSpec, lg caseLog, race bool, mu *sync.Mutex, to
 	tot.multiWriterBatches += st.multiWriterBatches
 	tot.fcChecked += st.fcChecked
 	tot.overlaps += st.overlaps
+	tot.subsliceWrites += st.subsliceWrites
+	tot.batchesLedBySubslice += st.batchesLedBySubslice
 	mu.Unlock()
 	build := "normal"
 	if race {
 		build = "race"
 	}
 	if len(vs) > 0 {
+		note := ""
+		if lg.Clobbered > 0 {
+			note = fmt.Sprintf(" (diagnostic: %d word(s) of the writers' own payload arrays, parts of which were handed to Write as sub-slices, were overwritten during the case)", lg.Clobbered)
+		}
 		for _, v := range vs {
-			c.Violation(v.key, fmt.Sprintf("[%s build, case %d] %s", build, s.No, v.what), map[string]any{"spec": s, "build": build, "log": lg})
+			c.Violation(v.key, fmt.Sprintf("[%s build, case %d] %s%s", build, s.No, v.what, note), map[string]any{"spec": s, "build": build, "log": lg})
 		}
 		return
 	}
